@@ -298,6 +298,9 @@ type Case struct {
 	Files map[string]string `json:"files"`
 	Label string            `json:"label"`
 	Route string            `json:"route"` // source/carrier.../sink names (the violation key)
+	// Switched: the template is compiled while the package-wide default (SetAutoescape) is OFF; the default is
+	// switched back on before the execution, which therefore is an execution with autoescaping on
+	Switched bool `json:"switched,omitempty"`
 }
 
 func (c *Case) ID() string {
@@ -323,7 +326,11 @@ func (c *Case) Exec(t *eng.T) {
 	t.Nontrivial()
 	render := func(m string) px.Out {
 		set, _ := px.NewSet(c.Files)
+		if c.Switched {
+			pongo2.SetAutoescape(false)
+		}
 		tpl, out := px.CompileFile(set, "/main")
+		pongo2.SetAutoescape(true)
 		if tpl == nil {
 			return out
 		}
@@ -511,6 +518,26 @@ func run(r *eng.Runner) {
 		}
 		for _, p := range progs {
 			r.Do(&Case{Files: map[string]string{"/main": p.src}, Label: s.name + ">tag>" + p.sink, Route: routeKey(s.name, []string{"tag-argument"}, p.sink)})
+		}
+	}
+	r.Group("default-switched", "c02.case", "templates compiled while the package-wide default was off (SetAutoescape(false)) and executed after it was switched on again: every source printed directly, in a loop over a literal, by firstof, inside a statically included file, an extended base and an imported macro")
+	for _, s := range srcs {
+		if s.wrap != nil {
+			continue
+		}
+		e := s.expr
+		for _, p := range []struct {
+			sink  string
+			files map[string]string
+		}{
+			{"print", map[string]string{"/main": "{{ " + e + " }}"}},
+			{"for-literal", map[string]string{"/main": "{% for x in [" + e + "] %}{{ x }}{% endfor %}"}},
+			{"firstof", map[string]string{"/main": "{% firstof " + e + " %}"}},
+			{"included", map[string]string{"/main": "{% include \"inc\" %}", "/inc": "{{ " + e + " }}"}},
+			{"base", map[string]string{"/main": "{% extends \"base\" %}{% block b %}{{ " + e + " }}{% endblock %}", "/base": "{{ " + e + " }}{% block b %}{% endblock %}"}},
+			{"imported-macro", map[string]string{"/main": "{% import \"lib\" m %}{{ m(" + e + ") }}", "/lib": "{% macro m(a) export %}{{ a }}{% endmacro %}"}},
+		} {
+			r.Do(&Case{Files: p.files, Label: s.name + ">switched>" + p.sink, Route: routeKey(s.name, []string{"default-switched"}, p.sink), Switched: true})
 		}
 	}
 }
